@@ -68,6 +68,9 @@ claim("C06", "edge-cut/loop reachability + value provenance + fail-stop walk on 
       "Decides on every path: compaction starts at MaxTXID(dst)+1 on level dst-1, no listed input can be skipped silently, the advertised range is folded over all inputs, the pipe/cache hand-off follows the write result, the snapshot branch needs a newer position, snapshots advertise the committed size. Page equivalence of compacted files lives in the pinned ltx dependency and is not decided.",
       _TB, "DESIGN.md 3/C06")
 
+claim("C18", "provenance + edge-cut reachability + lockset (guarded-by) on the VFS code (build tag vfs)",
+      "Decides structural necessary conditions of 'the VFS serves what a restore would': the index is always built from the restore planner's result in plan order on the file's own client with the requested timestamp forwarded unchanged, a page fetch uses the coordinates of the one element looked up for the right page number, the header rewrite is confined to bytes 18/19/24..27 of page 1, index state is accessed under its mutex, a pending index replacement is never dropped while a reader holds a lock, polling is contiguous and catch-up inclusive. The byte-level differential against a full restore is not decided.",
+      _TB, "DESIGN.md 3/C18")
+
 _pending = "check not built yet in this revision (planned, see DESIGN.md section 3); not claimed until its rules run clean on the unchanged tree"
-for _p in ["C18"]:
-    na(_p, _pending)
+
